@@ -2,7 +2,7 @@
 //! executor rt/vexec: `spawn` enqueues a task that the explorer polls as a separate entity.
 pub use vexec::shim::{spawn, JoinError, JoinHandle};
 pub mod task {
-    pub use vexec::shim::{spawn, JoinError, JoinHandle};
+    pub use vexec::shim::{spawn, yield_now, JoinError, JoinHandle};
 }
 pub mod runtime {
     #[derive(Clone, Debug)]
